@@ -59,7 +59,7 @@ func genWarrior(r *Rng, idx int64, d asm.Dialect, m, maxLen int) ([]mars.Insn, i
 		fv := func() int {
 			switch r.Intn(5) {
 			case 0:
-				return []int{0, 1, m / 2, m/2 + 1, m - 1, (m/2 + m - 1) % m}[r.Intn(6)] % m
+				return []int{0, 1, m / 2, m/2 + 1, m - 1, (m/2 - 1 + m%2) % m}[r.Intn(6)] % m
 			case 1:
 				return r.Intn(min(m, 10))
 			default:
@@ -75,8 +75,16 @@ func genWarrior(r *Rng, idx int64, d asm.Dialect, m, maxLen int) ([]mars.Insn, i
 	return code, r.Intn(l)
 }
 
+// heldResult is a result returned by an earlier call, kept together with a deep copy of what it was
+type heldResult struct {
+	got  g.WarriorData
+	copy []g.Instruction
+	who  string
+}
+
 func runC09(c *Ctx) {
 	runPinned(c, "C09")
+	var held []heldResult
 	n := int64(120000)
 	if c.Thorough() {
 		n = 8000000
@@ -87,6 +95,10 @@ func runC09(c *Ctx) {
 			d = asm.D88
 		}
 		m := []int{3, 7, 80, 800, 8000, 8192, 55440}[r.Intn(7)]
+		if r.Chance(1, 25) {
+			// neither reader allocates a core: sizes near 2^31, 2^32 and 2^62..2^63 are ordinary configurations for them
+			m = []int{1<<31 - 1, 1 << 31, 1<<32 + 1, 1 << 40, 1<<62 + 2, 1<<63 - 25}[r.Intn(6)]
+		}
 		maxLen := []int{1, 5, 20, 100}[r.Intn(4)]
 		if maxLen > m {
 			maxLen = m
@@ -95,6 +107,9 @@ func runC09(c *Ctx) {
 		gc := gcfg(cfg, []g.SimulatorMode{g.ICWS94, g.NOP94}[r.Intn(2)])
 		code, start := genWarrior(r, idx, d, m, maxLen)
 		spell := r.Intn(4)
+		if m > 1<<29 {
+			spell = r.Intn(2) // congruent spellings k*M would leave the assembler's 32 bits (and, for the largest cores, 64 bits)
+		}
 		lines := asm.PrintLoadFile(code, start, d, m, spell, r)
 		// perturbation sets: the canonical text, single perturbations, and random products
 		set := 0
@@ -113,7 +128,11 @@ func runC09(c *Ctx) {
 		c.Inc("texts")
 		c.Set("forms_covered", fmt.Sprintf("%d|%d", d, formOf(code[0])))
 		c.Set("perturbation_sets", fmt.Sprint(set))
-		for _, reader := range []string{"loader", "assembler"} {
+		readers := []string{"loader", "assembler"}
+		if m > 1<<31 {
+			readers = readers[:1] // the assembler's numbers are 32-bit (C07): fields of such cores are beyond it
+		}
+		for _, reader := range readers {
 			var wd g.WarriorData
 			var err error
 			var pm string
@@ -139,6 +158,25 @@ func runC09(c *Ctx) {
 				return
 			}
 			c.Inc("roundtrips_" + reader)
+			// what an earlier call returned must still be what it returned (no storage shared between results)
+			for _, h := range held {
+				if len(h.got.Code) != len(h.copy) {
+					c.Violate("C09:earlier-result-changed", "a result returned by an earlier "+h.who+" call changed its length after later calls", cs())
+					return
+				}
+				for i := range h.copy {
+					if h.got.Code[i] != h.copy[i] {
+						c.Violate("C09:earlier-result-changed", fmt.Sprintf("instruction %d of a warrior returned by an earlier %s call changed from %v to %v after later calls of the readers", i, h.who, h.copy[i], h.got.Code[i]), cs())
+						return
+					}
+				}
+			}
+			if idx%16 < 2 {
+				if len(held) >= 4 {
+					held = held[1:]
+				}
+				held = append(held, heldResult{got: wd, copy: append([]g.Instruction(nil), wd.Code...), who: reader})
+			}
 		}
 		bits := 0
 		for b := 0; b < asm.NumPerturbations; b++ {
